@@ -224,6 +224,20 @@ func RunCase(t *testing.T, c *Case, work, sched *choice.Source, st *Stats) (fs [
 	if work.Chance(1, 6) {
 		minSamples = numSamples + 1 + work.Intn(100)
 	}
+	// deep sampling on a tiny image: hundreds to thousands of samples per pixel,
+	// so that anything the estimator does per batch of samples is crossed
+	if work.Chance(1, 10) {
+		numSamples = 65 + work.Intn(2000)
+		if work.Chance(1, 2) {
+			numSamples = []int{127, 128, 129, 255, 256, 257, 511, 512, 513, 1023, 1024, 1025, 2047, 2048, 2049}[work.Intn(15)]
+		}
+		if minSamples > 0 && work.Chance(1, 2) {
+			minSamples = work.Intn(numSamples + 1)
+		}
+		w, h = 2, 2+work.Intn(2)
+		obj.w, obj.h = w, h
+		st.probe("deep sampling (65..2064 samples per pixel)")
+	}
 	obj.hist = make([][]sample, w*h)
 	maxX, maxY := float64(w)-1, float64(h)-1
 	caster := cam.Caster(maxX, maxY)
